@@ -2,7 +2,7 @@
 From Coq Require Import Sorting.Permutation.
 From CKC Require Import Base.Prelude Base.Reflect Base.SortN Spec.Layout Spec.Poker.
 From CKC Require Import Model.Card Model.Hands Model.Five Model.HandRank.
-From CKC Require Import Proofs.CardFacts Proofs.SortFacts Proofs.ValidFacts Proofs.FiveFacts Proofs.C01 Proofs.TableFacts.
+From CKC Require Import Proofs.CardFacts Proofs.SortFacts Proofs.ValidFacts Proofs.FiveFacts Proofs.HandFacts Proofs.NonZero Proofs.GenericTable.
 From CKC Require Import Gen.Consts.
 Open Scope N_scope.
 
@@ -14,19 +14,28 @@ Lemma unique_big ws :
   (are_unique ws = true <-> NoDup ws /\ Forall (fun x => x < U32MAX) ws).
 Proof. intros H. apply are_unique_big. lia. Qed.
 
-(* validated ranking: ANY words in the slots *)
+(* validated ranking: ANY words in the slots. Needs from the lookup tables only that five distinct real
+   cards never rank 0 (Proofs/NonZero.v), not which value they get. *)
+Lemma model_ranks chk : ranks_with chk (model_val chk).
+Proof. intros c H. apply hrv5_nonzero, H. Qed.
+
 Lemma validated_ok chk n ws :
   (n = 5 \/ n = 6 \/ n = 7)%nat -> length ws = n ->
   (is_valid ws = false -> hand_rank_value_validated chk ws = Ok 0) /\
   (is_valid ws = true ->
-     exists v, hand_rank_value_validated chk ws = Ok v /\ hand_rank_value chk ws = Ok v /\ 1 <= v <= 7462).
+     exists v, hand_rank_value_validated chk ws = Ok v /\ hand_rank_value chk ws = Ok v /\ v <> 0).
 Proof.
   intros Hn HL. split.
   - intros Hv. unfold hand_rank_value_validated. rewrite Hv. reflexivity.
   - intros Hv. pose proof (proj1 (is_valid_spec ws) Hv) as [HR HN].
     destruct Hn as [->|Hn].
-    + destruct (value_ok chk ws (conj HL (conj HR HN))) as (A & _ & _ & B & _ & C). eexists. repeat split; eauto; apply C.
-    + destruct (value_table_ok chk n ws Hn (conj HL (conj HR HN))) as (A & _ & _ & B & C). eexists. repeat split; eauto; apply C.
+    + destruct (hrv5_nonzero chk ws (conj HL (conj HR HN))) as [E NZ].
+      assert (E1 : hand_rank_value chk ws = Ok (model_val chk ws)).
+      { unfold hand_rank_value, hrvh. rewrite HL. exact E. }
+      exists (model_val chk ws). split; [|split; [exact E1 | exact NZ]].
+      unfold hand_rank_value_validated. rewrite Hv. exact E1.
+    + destruct (value_table_ok chk _ n ws (model_ranks chk) Hn (conj HL (conj HR HN))) as (A & _ & _ & B & C & _).
+      eexists. split; [exact B|]. split; [exact A | exact C].
 Qed.
 
 Lemma validated_zero_iff chk n ws :
@@ -35,6 +44,6 @@ Lemma validated_zero_iff chk n ws :
 Proof.
   intros Hn HL. destruct (validated_ok chk n ws Hn HL) as [H0 H1].
   destruct (is_valid ws) eqn:E.
-  - destruct (H1 eq_refl) as (v & A & _ & B). exists v. split; [exact A|]. split; [lia | discriminate].
+  - destruct (H1 eq_refl) as (v & A & _ & B). exists v. split; [exact A|]. split; [intros ->; congruence | discriminate].
   - exists 0. split; [apply H0; reflexivity | tauto].
 Qed.
